@@ -741,6 +741,8 @@ Verdict(e) ==
     [] e.act = "FromWif" -> V_FromWif(e)
     [] e.act = "SecParse" -> V_SecParse(e)
     [] e.act = "BadPointNode" -> V_BadPointNode(e)
+    [] e.act = "FromPoint" -> (IF \E j \in 1..Len(e.res.v.probes) : e.res.v.probes[j].ok
+                               THEN "public-key-built-from-a-point-of-another-curve" ELSE "ok")
     [] e.act = "Addr" -> V_Addr(e)
     [] e.act = "ScriptTpl" -> V_ScriptTpl(e)
     [] e.act = "AddrSeq" -> V_AddrSeq(e)
